@@ -57,6 +57,8 @@ def main(c):
     c.assumptions += [
         "the emulator implements: sixel (DA1), Unicode-core clustering/width (DECRPM 2027 = permanently set); nothing else is advertised",
         "the host terminal is a capable one (RGB, styled underlines, Unicode core): what the host cannot display is not the emulator's loss",
+        "hosts without Unicode core: only that Draw hands the window the emulator's cells with the emulator's widths is judged (two such hosts, one drawn "
+        "into, one set cell by cell from the emulator's snapshot, write the same bytes), not what a plain terminal displays of them",
         "the emulator is not resized under the running application (C05 covers resizes); histories are cut at their first resize",
         "graphics: the emulator gives its child no pixel geometry (no reply to CSI 14 t, no pixel size in the PTY's window size); the "
         "pictures are drawn by an application whose tty reports one, as an image encoder needs it; judged: every picture drawn with the "
@@ -94,7 +96,7 @@ def main(c):
         rule="scenario = screen size x frame history (the C01 generators: random ops, style chains over attribute-mask pairs and "
              "colour classes, fixed corner cases) run by a real Vaxis whose terminal is the real emulator; after every frame three "
              "views are compared with the application's record: reference terminal fed the same bytes, emulator snapshot, host "
-             "screen after Draw; plus: runs of neighbouring cells whose texts have no grapheme cluster boundary between them (13 pairs "
+             "screen after Draw, and the bytes a plain host writes after Draw = the bytes a second one writes after the snapshot's cells were set in its window; plus: runs of neighbouring cells whose texts have no grapheme cluster boundary between them (13 pairs "
              "over the UAX #29 joining rules, fixed and random histories), screens whose first frame is longer than one read of the "
              "emulator's parser (combining sequences, ZWJ sequences, single-code-point content under changing styles, mixed content), "
              "pictures of few and many colours drawn with the graphics protocol derived from the emulator's replies; rows holding "
